@@ -3,6 +3,7 @@ import argparse, json, os, re, sys, time
 sys.path.insert(0, os.path.dirname(os.path.abspath(__file__)))
 import shv
 from shv import log, VERIF, Undecided
+OUT = os.environ.get('SHV_OUT', VERIF)  # evidence/replay root (mutation runs write elsewhere)
 import props as P
 import replay as R
 
@@ -25,6 +26,7 @@ def load_known():
 def classify(pid, hname, hcfg, hres, obl_reg):
     """Map one harness' checks to obligations. Returns (discharged, failed, undecided_reasons, covers, nchecks)."""
     discharged, failed, undec = {}, {}, []
+    unreach = []
     covers = []
     status_by_obl = {}
     n_auto = n_auto_ok = 0
@@ -45,7 +47,7 @@ def classify(pid, hname, hcfg, hres, obl_reg):
         # panics in the code under contract that the harness maps to an obligation
         mapped = None
         for rx, obl in hcfg.get('panic_map', []):
-            if re.search(rx, d):
+            if re.search(rx, c.get('function', '') + ' | ' + d):
                 mapped = obl
                 break
         if mapped:
@@ -94,9 +96,7 @@ def classify(pid, hname, hcfg, hres, obl_reg):
                 # a "this point is never reached" obligation: unreachable IS the proof
                 discharged[obl] = {'harness': hname, 'n_checks': len(sts), 'desc': lst[0][1]['desc'], 'note': 'proved unreachable'}
                 continue
-            if obl in hcfg.get('may_be_unreachable', []):
-                continue
-            undec.append('%s: obligation %s is unreachable in its harness (vacuous)' % (hname, obl))
+            unreach.append(obl)
         else:
             if unwind_fail and hcfg.get('unwind_obl'):
                 continue  # UNDETERMINED because of the unwinding failure, which is itself reported
@@ -108,12 +108,12 @@ def classify(pid, hname, hcfg, hres, obl_reg):
             if failed:
                 continue
             undec.append('%s: cover not satisfied (vacuity guard): %s [%s]' % (hname, d, st))
-    return discharged, failed, undec, covers, len(hres['checks'])
+    return discharged, failed, undec, covers, len(hres['checks']), unreach
 
 
 def write_replay(pid, obl, info, extra):
-    os.makedirs(os.path.join(VERIF, 'replay'), exist_ok=True)
-    path = os.path.join(VERIF, 'replay', '%s-%s.txt' % (pid, re.sub(r'[^A-Za-z0-9_.\-]', '_', obl)))
+    os.makedirs(os.path.join(OUT, 'replay'), exist_ok=True)
+    path = os.path.join(OUT, 'replay', '%s-%s.txt' % (pid, re.sub(r'[^A-Za-z0-9_.\-]', '_', obl)))
     with open(path, 'w') as f:
         f.write('property: %s\nfailed obligation: %s\n' % (pid, obl))
         reg = P.OBLIGATIONS.get(obl, {})
@@ -154,6 +154,8 @@ def main():
     replays_extra = {}
     replay_texts = {}
     rewrites = []
+    unreachable_in = {}
+    all_stubs = []
     try:
         with shv.Scratch(keep=a.keep) as sc:
             for uname in cfg['units']:
@@ -176,6 +178,7 @@ def main():
                     to = unit.get('timeout', {}).get(a.tier, 900 if a.tier == 'quick' else 3600)
                     r = shv.run_kani(sc, unit, sorted(hs), to)
                     cmds.append(r['cmd'])
+                    all_stubs += r.get('stubs', [])
                     if r['compile_error']:
                         undec.append('unit %s: no verifier result (%s)' % (uname, r['compile_error'][:1500]))
                         unit_reports.append({'unit': uname, 'error': r['compile_error'][:400]})
@@ -185,7 +188,10 @@ def main():
                             undec.append('harness %s produced no result (anchor lost or harness not found)' % h)
                             continue
                         hres = r['harnesses'][h]
-                        d, f, u, cov, n = classify(pid, h, hc, hres, P.OBLIGATIONS)
+                        d, f, u, cov, n, unr = classify(pid, h, hc, hres, P.OBLIGATIONS)
+                        for o in unr:
+                            if o.startswith(pid + '.'):
+                                unreachable_in.setdefault(o, []).append(h)
                         total_checks += n
                         solver_s += hres.get('solver_s') or 0.0
                         for k, v in d.items():
@@ -215,7 +221,10 @@ def main():
                     solver_s += r.get('solver_s', 0.0)
                     for k, v in r.get('discharged', {}).items():
                         if k.startswith(pid + '.'):
-                            discharged.setdefault(k, v)
+                            if P.OBLIGATIONS.get(k, {}).get('kind', 'proved').startswith('bounded'):
+                                bounded_ok[k] = dict(v, bound=v.get('bound') or P.OBLIGATIONS[k]['kind'])
+                            else:
+                                discharged.setdefault(k, v)
                     for k, v in r.get('failed', {}).items():
                         if k.startswith(pid + '.'):
                             failed[k] = v
@@ -247,12 +256,25 @@ def main():
     expected = [o for o, r in P.OBLIGATIONS.items() if r['prop'] == pid and (a.tier == 'thorough' or r.get('tier', 'quick') == 'quick')]
     if not a.only:
         for o in expected:
+            reg = P.OBLIGATIONS[o]
+            if o not in discharged and o not in failed and o not in bounded_ok and reg.get('absent_ok') and reg.get('never'):
+                # the assertion lives in a stub that the verified program never calls: Kani did not even
+                # generate it. Sound only if the stub was really applied - checked from Kani's Stub: lines.
+                if any(re.search(reg['absent_ok'], st) for st in all_stubs) and not undec:
+                    discharged[o] = {'harness': '(all)', 'engine': 'kani/cbmc', 'desc': 'stub applied and unreachable: no call site in the verified program', 'note': 'absent'}
+        for o in expected:
             if o not in discharged and o not in failed and o not in bounded_ok:
                 undec.append('registered obligation %s was not generated by any harness' % o)
     for o in list(discharged) + list(failed) + list(bounded_ok):
         if o not in P.OBLIGATIONS:
             undec.append('obligation %s is not registered in props.OBLIGATIONS' % o)
 
+    for o, hs_ in unreachable_in.items():
+        if o not in discharged and o not in failed and o not in bounded_ok:
+            undec.append('obligation %s is unreachable in every harness that states it (%s): vacuous' % (o, ', '.join(hs_)))
+    for o in failed:
+        discharged.pop(o, None)
+        bounded_ok.pop(o, None)
     wall = time.time() - t0
     # violations / known findings
     rc = 0
@@ -313,8 +335,8 @@ def main():
         'violations': n_viol,
     }
     if not a.only:
-        os.makedirs(os.path.join(VERIF, 'evidence'), exist_ok=True)
-        with open(os.path.join(VERIF, 'evidence', pid + '.json'), 'w') as f:
+        os.makedirs(os.path.join(OUT, 'evidence'), exist_ok=True)
+        with open(os.path.join(OUT, 'evidence', pid + '.json'), 'w') as f:
             json.dump(ev, f, indent=1)
     print('%s tier=%s obligations=%d discharged=%d bounded-ok=%d failed=%d undecided=%d checks=%d wall=%.1fs' % (
         pid, a.tier, len(expected), len(discharged), len(bounded_ok), len(failed), len(undec), total_checks, wall))
